@@ -170,9 +170,12 @@ def assign_def(rng, is_async, payload, concrete, dynamic=True):
 def full_def(is_async, payload, concrete, dynamic=True, ptype='Pay'):
     """deterministic: every hook kind at event and at transition level, with and without an around callback,
     an unless-only edge, a multi-source and a superstate-source transition, a superstate target, data on leaves at
-    two depths and on a superstate, a self-transition of a data state — in one of the four generated shapes"""
+    two depths and on two nested superstates, a self-transition of a data state — in one of the four generated shapes"""
     P = [('payload', [ptype])] if payload else []
-    h = lambda k: hook_names(k, payload)
+    def h(k):
+        # conditions used as `unless` get names of their own (a name that is both a guard and an unless-condition
+        # of one edge could never let it fire)
+        return [n + 'u' for n in hook_names(k, payload)] if k == 'unless' else hook_names(k, payload)
     d = [('name', 'Machine')]
     if concrete:
         d.append(('context', ['Ctx']))
@@ -183,7 +186,7 @@ def full_def(is_async, payload, concrete, dynamic=True, ptype='Pay'):
     d.append(('initial', 'Idle'))
     d.append(('states', [('leaf', 'Idle', ['D']),
                          ('sup', 'Flight', ['D'], [('state', 'Launch', None),
-                                                   ('sup', 'Outer', None, [('state', 'HalfOpen', ['D']), ('state', 'Busy', None),
+                                                   ('sup', 'Outer', ['D'], [('state', 'HalfOpen', ['D']), ('state', 'Busy', None),
                                                                            ('initial', 'Busy')]),
                                                    ('initial', 'Launch')]),
                          ('leaf', 'Done', None)]))
